@@ -78,6 +78,11 @@ META["C15"] = dict(
     note="Trusted: Lean kernel; the hand model Model/Qos.lean (tied by the correspondence run on generated wire inputs and values); binary.BigEndian / bytes.Buffer semantics modelled; the independent figure-based encoders in tools/harness/qos.go (layout oracle).",
     technique="Lean 4 proof (totality with progress measure, round trip by list induction, bit-field facts by decide) on a hand model + Go/Lean correspondence + totality/unknown-identifier/round-trip/layout oracle on the real code")
 
+META["C18"] = dict(
+    text="Kernel-checked on the hand model: UePolDeliverySerDecode, UEPolicySectionManagementListContent.UnmarshalBinary and UEPolicySectionManagementResultContent.UnmarshalBinary return a value or an error for EVERY byte string and all five nested list walkers finish within a fuel bound (each parsed element consumes >= 3..5 octets; uint16 Len-1 / Len-3 wrap-around included); lists, results and command/complete/reject messages built through the API decode to the same structures with every length recomputed from content (induction over the three nesting levels); SetPlmnDigit of sublist and sub-result yields the TS 24.008 10.5.1.13 octets = PlmnIDToNas of the same digits for every MCC 100..999 x MNC 10..999 and the parsers read the numbers back (arithmetic proof). Defects F9, F10, F17 were repaired in /repo (fix: commits; F17 was found by this check).",
+    note="Trusted: Lean kernel; the hand model Model/UePolicy.lean (tied by the correspondence run on generated wire inputs, values and all PLMNs in thorough); bytes.Buffer / binary.Read semantics modelled; IDGenerator is C20's subject.",
+    technique="Lean 4 proof (totality with progress measures, three-level round trip by list induction, PLMN digit arithmetic) on a hand model + Go/Lean correspondence + totality/round-trip/PLMN-order oracle on the real code")
+
 NOT_APPLICABLE = {
  "C01": "check not built yet in this round (Lean model + correspondence planned, see DESIGN.md section 4); not claimed until it runs",
  "C02": "check not built yet in this round (Lean model + correspondence planned, see DESIGN.md section 4); not claimed until it runs",
